@@ -21,13 +21,13 @@ import (
 // Scenario names one run.
 type Scenario struct {
 	Name    string `json:"name"`
-	Op      string `json:"op"`             // rpan, removenode, reopen, send, mixed
-	Cb      string `json:"cb"`             // which callback re-enters Send: none, process, close, reopen, gated
-	Pending int    `json:"pending"`        // groups pending in the gated filter
-	Writer  bool   `json:"writer"`         // a writer is parked on the lock while the callback runs
+	Op      string `json:"op"`                // rpan, removenode, reopen, send, mixed
+	Cb      string `json:"cb"`                // which callback re-enters Send: none, process, close, reopen, gated
+	Pending int    `json:"pending"`           // groups pending in the gated filter
+	Writer  bool   `json:"writer"`            // a writer is parked on the lock while the callback runs
 	Compose string `json:"compose,omitempty"` // "gateable": ComposeFrom hands back a payload that is itself a Gateable flush event
-	Race    bool   `json:"race"`           // gated filter inside Process (holding its mutex) vs removal
-	Fail    string `json:"fail,omitempty"` // op "failed": which call is made with a failing precondition
+	Race    bool   `json:"race"`              // gated filter inside Process (holding its mutex) vs removal
+	Fail    string `json:"fail,omitempty"`    // op "failed": which call is made with a failing precondition
 }
 
 // Result of a scenario.
